@@ -8,6 +8,9 @@ NOTE = "bounded-exhaustive up to the stated bound, sampled beyond; floats compar
 CLAIMED = {
  "C01": ("7 C01", "TLC model checking of the patterning spec (every charge pattern up to a length bound is a state: sentinel iff no arrangement has variance, kappa well defined, out of range only through the documented family = finding K1) + replay of every state into get_kappa/get_delta/get_deltaMax, clause by clause + TLC trace validation of replies recorded on long random and skewed sequences with call histories", NOTE),
  "C03": ("7 C03", "TLC model checking over composition space (every (p,n,z) up to a bound plus the 17/18-neutral boundary slab: maximum attained inside the documented family, symmetric, regimes partition) + every composition realised through several permutations/spellings with get_deltaMax()/get_deltaMax(True) fresh, after get_kappa and after random histories, all judged by TLC (value = family maximum, permutant is a rearrangement with exactly that delta)", NOTE),
+ "C04": ("7 C04", "TLC model checking of the composition spec (every sequence over a small alphabet up to a bound and over all 20 residues up to length 2: position sum = count form, permutation invariance, FCR/NCPR identities, fractions sum to 1) + replay of every state into the 18 scalar getters and the 20 amino-acid fractions against TLC's exact rationals + TLC trace validation of replies recorded on random sequences and their permutations, with call histories", NOTE),
+ "C06": ("7 C06", "TLC model checking of the recoding laws (every sequence over 5 letters up to a bound x every group pair: swap, complement, Omega = kappa_X(PEDKR), kappa = kappa_X(ED,KR); kappa-level through inversion invariance in MC_Patterning) + relations between real replies and TLC trace validation of every get_Omega / get_kappa_X / get_Omega_sequence reply on exhaustive short and random sequences x random groups", NOTE),
+ "C08": ("7 C08", "TLAPS proof (unbounded: the coded cascade is total, equals the documented thresholds, signs of regions 4/5) + TLC model checking of the same over every (p,n,z) up to a bound + every triple realised as a sequence and replayed into get_phasePlotRegion", NOTE + "; TLAPS SMT back end trusted"),
  "C05": ("7 C05", "TLC model checking (delta numerator, SCD coefficients and delta-max invariant under reversal / inversion / p<->n for every pattern up to a bound) + replay of every state with random class-preserving substitutions, reversal and inversion into the five getters + TLC trace validation of base and variants on long random sequences", NOTE),
  "C07": ("7 C07", "TLC model checking of the SCD coefficients (zero with < 2 charges, pattern-only, symmetric) + replay of every pattern up to a bound into get_SCD + TLC trace validation on long random / strongly correlated sequences with a sqrt table whose bracket TLC verifies", NOTE),
  "C02": ("7 C02", "TLC model checking of the patterning spec (every charge pattern up to a length bound is a state; the scaled-integer delta is shown equal to the Das-Pappu definition in exact rationals) + replay of every TLC state into get_delta + TLC trace validation (Trace_Queries) of get_delta replies recorded from the real code on long random sequences with random call histories",
